@@ -28,6 +28,15 @@ built by this file from the records (never from the code under test):
                        built: runs, exact sums, probed positions and short dense windows around the breakpoints are compared
                        with the piecewise constant function the records describe
 
+  I  ignored contigs   genomes that contain IGNORED contigs of non-zero size (names with '_': the default filter of Genome.from_file;
+                       chrom.sizes / .fai file, from_dict(filter_function=ignore_underscores), with_ignored_added): the genome the
+                       arrays live on is the concatenation of the INCLUDED contigs only.  Masks / pileups built from intervals and
+                       tracks built from a bedGraph (with and without records on the ignored contigs, which are dropped): to_dict,
+                       whole-array reductions in which the default value contributes ((~m).sum(), np.sum(p == 0), np.sum(p + 1),
+                       np.histogram), expressions that combine interval-built and bedGraph-built arrays, back-conversion
+  (H also: genomes in which the OFFSET of a chromosome is at / beyond 2**32 - 4 x 1.5e9, 2**32 + small, 5 x 3e9 - and a big
+   genome with ignored contigs)
+
 In A-F all float values are small dyadic rationals, so sums and products are exact in every evaluation order.
 """
 import itertools
@@ -676,8 +685,12 @@ class ExprEnv:
 
     def __init__(self, col, leafcase):
         import numpy as np
-        self.genome = [tuple(g) for g in leafcase["genome"]]
-        g = make_genome(self.genome)
+        if "contigs" in leafcase:       # scope I: genome with ignored contigs; the arrays live on the included contigs
+            self.genome = included_contigs(leafcase["contigs"])
+            g = make_genome_ign(leafcase["contigs"], leafcase["route"])
+        else:
+            self.genome = [tuple(g) for g in leafcase["genome"]]
+            g = make_genome(self.genome)
         self.g = g
         self.bnp, self.np = {}, {}
         for name in ("A", "B"):
@@ -691,15 +704,22 @@ class ExprEnv:
             self.bnp[name] = g.get_intervals(build_intervals(ivs)).get_mask()
             d = dense_mask(self.genome, ivs)
             self.np[name] = np.array([x for n, _ in self.genome for x in d[n]], dtype=bool)
+        if "contigs" in leafcase:       # P: pileup of the intervals of K and M together (any order, overlapping)
+            ivs = [tuple(r) for r in leafcase["K"]] + [tuple(r) for r in leafcase["M"]]
+            self.bnp["P"] = g.get_intervals(build_intervals(ivs)).get_pileup()
+            d = dense_pileup(self.genome, ivs)
+            self.np["P"] = np.array([x for n, _ in self.genome for x in d[n]], dtype=np.int64)
         self.cache = {}
         self.bad = set()
 
-    def check_leaves(self, col, leafcase, prefix="expr", eq=None):
-        for name in ("A", "B", "M", "K"):
-            case = dict(leafcase, kind=prefix, expr=L(name))
+    def check_leaves(self, col, leafcase, prefix="expr", eq=None, kind=None):
+        for name in ("A", "B", "M", "K", "P"):
+            if name not in self.bnp:
+                continue
+            case = dict(leafcase, kind=kind or prefix, expr=L(name))
             dense = self.split(self.np[name].tolist())
             if not check_to_dict(col, self.bnp[name], self.genome, dense,
-                                 prefix + ":leaf:" + ("track" if name in "AB" else "mask"), case, eq=eq):
+                                 prefix + ":leaf:" + ("track" if name in "AB" else "mask" if name in "MK" else "pileup"), case, eq=eq):
                 self.bad.add(name)
 
     def split(self, flat):
@@ -729,15 +749,15 @@ class ExprEnv:
         return r
 
 
-def check_expr(col, env, leafcase, e, full=True):
+def check_expr(col, env, leafcase, e, full=True, prefix="expr", kind="expr", contract="expression"):
     import numpy as np
-    case = dict(leafcase, kind="expr", expr=e)
+    case = dict(leafcase, kind=kind, expr=e)
     key = expr_str(e)
     # an operand whose own value is already known to be wrong (reported at its own level) is not blamed on this operator
     if any(expr_str(x) in env.bad for x in e[1:] if x[0] != "scalar"):
         env.bad.add(key)
         return
-    col.case({"leaves": leafcase, "expr": key}, contract="expression:depth%d" % expr_depth(e))
+    col.case({"leaves": leafcase, "expr": key}, contract="%s:depth%d" % (contract, expr_depth(e)))
     rs = root_sig(e)
     # operands first (sub-expression failures have been reported at their own level)
     try:
@@ -751,28 +771,28 @@ def check_expr(col, env, leafcase, e, full=True):
             exp = BINOPS[e[0]](ops[0][1], ops[1][1])
     except TypeError:
         return      # not a NumPy expression (ill-typed): outside the property
-    got = col.guarded(lambda: env.eval(e)[0], "expr:" + rs, case)
+    got = col.guarded(lambda: env.eval(e)[0], prefix + ":" + rs, case)
     if got is None:
         return
     genome = env.genome
     dense = env.split(np.asarray(exp).tolist())
-    sig = "expr:" + rs
+    sig = prefix + ":" + rs
     col.check((got.dtype == bool) == (exp.dtype == bool), sig + ":boolean-ness-differs", case,
               "%s: dtype %r, NumPy gives %r" % (expr_str(e), got.dtype, exp.dtype))
     if not check_to_dict(col, got, genome, dense, sig, case):
         env.bad.add(key)
         return
     total = exp.sum()
-    s = col.guarded(lambda: (np.sum(got), got.sum()), "expr:sum", case)
+    s = col.guarded(lambda: (np.sum(got), got.sum()), prefix + ":sum", case)
     if s is not None:
-        col.check(s[0] == total and s[1] == total, "expr:sum:wrong:" + ("bool" if exp.dtype == bool else "numeric"), case,
+        col.check(s[0] == total and s[1] == total, prefix + ":sum:wrong:" + ("bool" if exp.dtype == bool else "numeric"), case,
                   "%s: got %r expected %r" % (expr_str(e), s, total))
     if not full:
         return
     if exp.dtype != bool:
-        check_histogram(col, got, genome, dense, "expr", case,
+        check_histogram(col, got, genome, dense, prefix, case,
                         kws=({}, {"bins": 3, "range": (-1, 4)}, {"bins": [-4, 0, 0.5, 2, 16]}))
-    check_backconversion(col, got, genome, dense, "expr", case, is_bool=bool(exp.dtype == bool))
+    check_backconversion(col, got, genome, dense, prefix, case, is_bool=bool(exp.dtype == bool))
 
 
 def expr_depth(e):
@@ -1363,7 +1383,16 @@ BIG_GENOMES = {
     "2x2e9": [("chr1", 2_000_000_000), ("chr2", 2_000_000_000)],                   # second offset in (2**31, 2**32)
     "3e9+small+2^32": [("chrB", 3_000_000_000), ("chrA", 16569), ("chr10", 2 ** 32)],    # single contigs >= 2**31, 2**32
     "hg38": HG38,                                                                   # every contig < 2**31, total 3.09e9
+    # the OFFSET of a chromosome in the concatenation is at / beyond 2**32 (every genome above keeps all offsets below 2**32)
+    "4x1.5e9": [("chr%d" % i, 1_500_000_000) for i in (1, 2, 3, 4)],                # offsets 0, 1.5e9, 3e9, 4.5e9: every contig < 2**31
+    "2^32+1000+5000": [("chr1", 2 ** 32), ("chr2", 1000), ("chr3", 5000)],          # offsets exactly 2**32 and 2**32 + 1000
+    "2^32-1+1000+5000": [("chrB", 2 ** 32 - 1), ("chrA", 1000), ("chr10", 5000)],   # offset 2**32 - 1: chrA straddles 2**32
+    "5x3e9": [("chr%d" % i, 3_000_000_000) for i in (1, 2, 3, 4, 5)],               # offsets up to 12e9 (beyond 2**33)
 }
+# a big genome with ignored contigs (names with '_'): the arrays live on chr1 + chr2 only
+BIG_CONTIGS = {"2x2e9+alts": [("chr1", 2_000_000_000), ("chr1_KI270706v1_random", 175_055), ("chr2", 2_000_000_000),
+                              ("chrUn_GL000195v1", 300_000_000)]}
+BIG_GENOMES["2x2e9+alts"] = [(n, s) for n, s in BIG_CONTIGS["2x2e9+alts"] if "_" not in n]
 BIG_HOT = {"hg38": ("chr1", "chr17", "chrX", "chrM")}      # chromosomes that get intervals (chr17.. lie beyond 2**31)
 
 
@@ -1467,15 +1496,28 @@ _BIG_GENOME_OBJECTS = {}
 def big_genome_object(gname):
     """the Genome objects of the 5 big genomes are built once (25 chromosome names are slow to encode)"""
     if gname not in _BIG_GENOME_OBJECTS:
-        _BIG_GENOME_OBJECTS[gname] = make_genome(BIG_GENOMES[gname])
+        _BIG_GENOME_OBJECTS[gname] = make_genome_ign(BIG_CONTIGS[gname], "dict") if gname in BIG_CONTIGS else \
+            make_genome(BIG_GENOMES[gname])
     return _BIG_GENOME_OBJECTS[gname]
+
+
+def big_genome_class(gname):
+    """size class of the concatenation; the genomes added later (a chromosome offset at / beyond 2**32, ignored contigs)
+    are classes of their own"""
+    genome = BIG_GENOMES[gname]
+    cls = size_class(sum(s for _, s in genome))
+    if any(o >= P32 for o in itertools.accumulate(s for _, s in genome[:-1])):
+        cls += ":chromosome-offset-ge2p32"
+    if gname in BIG_CONTIGS:
+        cls += ":ignored-contigs"
+    return cls
 
 
 def check_big_genome(col, case):
     import numpy as np
     gname, what = case["genome"], case["what"]
     genome = BIG_GENOMES[gname]
-    cls = size_class(sum(s for _, s in genome))
+    cls = big_genome_class(gname)
     col.case(case, contract="big-genome:" + what)
     g = col.guarded(lambda: big_genome_object(gname), "big:genome:construct:" + cls, case)
     if g is None:
@@ -1541,7 +1583,8 @@ def big_record_sets(gname):
 def gen_big_genome(tier):
     quick = tier == "quick"
     for gname in BIG_GENOMES:
-        cand = genome_candidates(gname, (2 if gname == "hg38" else 3) if quick else (3 if gname == "hg38" else 5))
+        many = len(BIG_GENOMES[gname]) >= 4
+        cand = genome_candidates(gname, (2 if many else 3) if quick else (3 if many else 5))
         for k, ivs in enumerate(subsets_upto(cand, 2 if quick else 3)):
             if k % 2:
                 ivs = ivs[::-1]
@@ -1563,9 +1606,211 @@ def gen_big_genome(tier):
                            "records": recs, "vtype": vtype}
 
 
+# --------------------------------------------------------------------------------------------- I  genomes with ignored contigs
+# Genome.from_file ignores (by default) every contig whose name contains '_' (alt / random / unplaced contigs of the UCSC
+# chrom.sizes files).  The genome the arrays live on is then the concatenation of the INCLUDED contigs in file order: its
+# length is the sum of their sizes, records on ignored contigs are dropped.  Oracle: dense per-chromosome lists of the
+# included contigs only.
+IGN_GENOMES = {
+    # name -> contigs in file order
+    "alt-in-the-middle": [("chr1", 3), ("chr1_KI270706v1_random", 4), ("chr2", 2)],
+    "alt-first-and-last": [("chrUn_GL000195v1", 1), ("chr1", 3), ("chr2", 2), ("chr2_alt", 5)],
+    "one-included": [("chr1_alt", 2), ("chr1", 4), ("chrUn_x", 3)],
+    "order-not-alphabetical": [("chrB", 2), ("chrB_alt", 4), ("chrA", 1), ("chr10", 2), ("chrUn_1", 1), ("chrUn_2", 2)],
+    "four-included": [("chr1", 2), ("chr2", 1), ("chr2_alt", 7), ("chr3", 2), ("chr4", 1), ("chr4_alt", 1)],
+    "nothing-ignored": [("chr1", 3), ("chr2", 2)],
+}
+IGN_ROUTES = ("chrom.sizes", "fai", "dict", "dict+ignored-added")
+
+
+def no_underscore(name):
+    return "_" not in name
+
+
+def included_contigs(contigs):
+    return [(n, s) for n, s in (tuple(c) for c in contigs) if no_underscore(n)]
+
+
+def make_genome_ign(contigs, route):
+    """a Genome over `contigs` (file order) in which the names with '_' are ignored"""
+    import bionumpy as bnp
+    contigs = [tuple(c) for c in contigs]
+    if route in ("chrom.sizes", "fai"):
+        with TmpDir() as tmp:
+            if route == "chrom.sizes":
+                path, text = os.path.join(tmp, "genome.chrom.sizes"), "".join("%s\t%d\n" % c for c in contigs)
+            else:       # fasta index: name, length, offset, line bases, line width
+                path, text, off = os.path.join(tmp, "genome.fa.fai"), "", 0
+                for n, s in contigs:
+                    off += len(n) + 2
+                    text += "%s\t%d\t%d\t60\t61\n" % (n, s, off)
+                    off += s + (s + 59) // 60
+            with open(path, "w") as f:
+                f.write(text)
+            return bnp.Genome.from_file(path)       # default filter: names with '_' are ignored
+    g = bnp.Genome.from_dict(dict(contigs), filter_function=no_underscore)
+    if route == "dict+ignored-added":
+        g = g.with_ignored_added(["scaffold9"])     # one more ignored name (size 0)
+    elif route != "dict":
+        raise ValueError(route)
+    return g
+
+
+def is_ignored_name(name):
+    return not no_underscore(name) or name == "scaffold9"
+
+
+IGN_VIEWS = {
+    # derived whole-genome arrays: name -> (on the genomic array, on one dense value)
+    "get_mask": [("x", None, None), ("~x", operator.invert, lambda v: not v)],
+    "get_pileup": [("x", None, None), ("x==0", lambda x: x == 0, lambda v: v == 0), ("x<2", lambda x: x < 2, lambda v: v < 2),
+                   ("x+1", lambda x: x + 1, lambda v: v + 1), ("x*2", lambda x: x * 2, lambda v: v * 2),
+                   ("x>0", lambda x: x > 0, lambda v: v > 0)],
+}
+
+
+def check_ign_cover(col, case):
+    """mask / pileup of intervals on a genome with ignored contigs, and the whole-array reductions of derived arrays in
+    which the default value (the positions outside every interval) does / does not contribute"""
+    import numpy as np
+    contigs = [tuple(c) for c in case["contigs"]]
+    genome = included_contigs(contigs)
+    ivs = [tuple(r) for r in case["intervals"]]
+    what, route = case["what"], case["route"]
+    col.case(case, contract="ignored-contigs:GenomicIntervals." + what)
+    g = col.guarded(lambda: make_genome_ign(contigs, route), "ignored-contigs:genome:" + route, case)
+    if g is None:
+        return
+    sig = "ignored-contigs:" + ("data-on-ignored:" if any(is_ignored_name(c) for c, _, _ in ivs) else "") + what
+    if what == "get_mask":
+        dense = dense_mask(genome, ivs)
+        arr = col.guarded(lambda: g.get_intervals(build_intervals(ivs)).get_mask(), sig, case)
+    else:
+        dense = dense_pileup(genome, ivs)
+        arr = col.guarded(lambda: g.get_intervals(build_intervals(ivs)).get_pileup(), sig, case)
+    if arr is None:
+        return
+    if what == "get_mask":
+        col.check(arr.dtype == bool, sig + ":mask-not-boolean", case, "dtype %r" % (arr.dtype,))
+    if not check_to_dict(col, arr, genome, dense, sig, case):
+        return
+    light = case.get("light", False)    # quick tier: the derived arrays are observed through their reductions only on 3 of 4 cases
+    for name, fa, fv in IGN_VIEWS[what]:
+        if fa is None:
+            r, d, vsig = arr, dense, sig
+        else:
+            vsig = sig + (":default-contributes" if fv(False if what == "get_mask" else 0) else ":default-is-zero")
+            r = col.guarded(lambda: fa(arr), vsig, case)
+            if r is None:
+                continue
+            d = {n: [fv(x) for x in dense[n]] for n, _ in genome}
+            if not light and not check_to_dict(col, r, genome, d, vsig, case):
+                continue
+        is_bool = all(isinstance(x, bool) for n, _ in genome for x in d[n])
+        total = sum(sum(d[n]) for n, _ in genome)
+        got = col.guarded(lambda: (np.sum(r), r.sum()), vsig + ":sum", case)
+        if got is not None:
+            col.check(got[0] == total and got[1] == total, vsig + ":sum:wrong", case, "%s: got %r expected %r" % (name, got, total))
+        if not is_bool:
+            check_histogram(col, r, genome, d, vsig, case, kws=({"bins": 4, "range": (-2, 4)},) if light else ({"bins": 4, "range": (-2, 4)}, {}))
+        if fa is None or not light:
+            check_backconversion(col, r, genome, d, vsig, case, is_bool=is_bool)
+
+
+def gen_ign_cover(tier):
+    quick = tier == "quick"
+    k = 0
+    for gname, contigs in IGN_GENOMES.items():
+        inc = included_contigs(contigs)
+        ign = [c for c in contigs if not no_underscore(c[0])]
+        allivs = [(n, a, b) for n, s in inc for a in range(s) for b in range(a + 1, s + 1)]
+        pairs = [[x, y] for x in allivs for y in allivs]
+        triples = [list(reversed(c)) for c in itertools.combinations_with_replacement(allivs, 3)]
+        sets = [[]] + [[x] for x in allivs] + (pairs[::5] + triples[::23] if quick else pairs + triples[::2])
+        for ivs in sets:
+            k += 1
+            route = IGN_ROUTES[k % 4]
+            if k % 3 == 0 and (ign or route == "dict+ignored-added"):
+                # intervals on ignored contigs, anywhere in the list: dropped
+                extra = [(n, 0, s) for n, s in ign[:1]] + [(n, s - 1, s) for n, s in ign[1:]]
+                if route == "dict+ignored-added":
+                    extra.append(("scaffold9", 0, 0))
+                ivs = list(ivs)
+                for j, x in enumerate(extra):
+                    ivs.insert((k + j) % (len(ivs) + 1), x)
+            for what in ("get_mask", "get_pileup"):
+                yield {"kind": "ign_cover", "genome": gname, "contigs": contigs, "route": route, "intervals": ivs, "what": what,
+                       "light": bool(quick and k % 4)}
+
+
+def ign_exprs():
+    """-> (depth 1, depth 2): the depth-1 grammar of F over tracks A, B and masks M, K, plus the pileup P: comparisons and
+    arithmetic with scalars (the default value 0 contributes), interval-built with bedGraph-built operands"""
+    n1, b1 = depth1_exprs()
+    A, B, M, K, P = L("A"), L("B"), L("M"), L("K"), L("P")
+    p1 = [[op, P, S(v)] for op in ARITH + CMP for v in (0, 1, 2)] + [["sub", S(1), P], ["lt", S(1), P]]
+    p1 += [[op, x, y] for op in ARITH + CMP for x, y in ((P, A), (A, P), (P, B), (P, P))]
+    p1 += [["mul", P, M], ["mul", K, P]]
+    d2 = [["and", ["gt", A, S(0)], M], ["and", M, ["gt", A, S(0)]], ["or", ["eq", P, S(0)], K], ["add", ["mul", P, S(2)], A],
+          ["not", ["eq", P, S(0)]], ["not", ["and", M, K]], ["mul", ["not", M], A], ["eq", ["add", P, S(1)], A],
+          ["lt", ["sub", A, P], S(1)], ["and", ["not", M], ["not", K]], ["or", ["not", M], ["gt", B, S(0)]],
+          ["add", ["add", P, S(1)], ["mul", A, S(2)]], ["mul", ["eq", P, S(0)], B], ["not", ["not", M]]]
+    return n1 + b1 + p1, d2
+
+
+def ign_leaf_sets(tier):
+    quick = tier == "quick"
+    out = []
+    for gi, (gname, contigs) in enumerate(IGN_GENOMES.items()):
+        inc = included_contigs(contigs)
+        ign = [c for c in contigs if not no_underscore(c[0])]
+        (f, fs), (l, ls) = inc[0], inc[-1]
+        variants = [
+            # 0: everything covered, runs up to the very end of the genome
+            {"A": [(n, 0, s, 1 + i % 3) for i, (n, s) in enumerate(inc)], "B": [(n, s - 1, s, 0.5 * (i + 1)) for i, (n, s) in enumerate(inc)],
+             "M": [(n, 0, 1) for n, s in inc], "K": [(l, 0, ls)]},
+            # 1: gaps, one value across the chromosome boundaries, overlapping intervals in reverse genome order
+            {"A": [(f, fs - 1, fs, 3)], "B": [(n, 0, s, 2.0) for n, s in inc],
+             "M": [(n, s - 1, s) for n, s in reversed(inc)] + [(f, 0, fs)], "K": []},
+            # 2: (almost) empty
+            {"A": [], "B": [(l, 0, 1, -1.5)], "M": [], "K": [(f, 0, 1), (l, ls - 1, ls)]},
+        ]
+        if ign:
+            # 3: like 0, with records on the ignored contigs in the bedGraph and in the interval sets (dropped)
+            variants.append({"A": [(n, 0, s, 1 + i % 3 if no_underscore(n) else 7) for i, (n, s) in enumerate(contigs)],
+                             "B": [(n, s - 1, s, 0.5 * (i + 1)) for i, (n, s) in enumerate(contigs)],
+                             "M": [(n, 0, 1 if no_underscore(n) else s) for n, s in contigs], "K": [(ign[0][0], 0, 1), (l, 0, ls)]})
+        chosen = range(len(variants))
+        if quick:
+            chosen = [(0, 3), (1,), (2,), (3, 1), (0,), (0,)][gi % 6]
+        for vi in chosen:
+            if vi < len(variants):
+                out.append(dict(variants[vi], A_type="int", B_type="float", genome=gname, contigs=contigs,
+                                route=IGN_ROUTES[(gi + vi) % 4]))
+    return out
+
+
+def run_ign_expressions(col, tier):
+    d1, d2 = ign_exprs()
+    for leafcase in ign_leaf_sets(tier):
+        if col.out_of_time():
+            return
+        on_ign = any(is_ignored_name(r[0]) for k in "ABMK" for r in leafcase[k])
+        prefix = "ignored-contigs:" + ("data-on-ignored:" if on_ign else "") + "expr"
+        env = col.guarded(lambda: ExprEnv(col, leafcase), prefix + ":leaves", dict(leafcase, kind="ign_expr", expr=L("A")))
+        if env is None:
+            continue
+        env.check_leaves(col, leafcase, prefix=prefix, kind="ign_expr")
+        for n, e in enumerate(d1 + d2):     # operands before the expressions that use them
+            safely(col, lambda c: check_expr(col, env, leafcase, e, full=(tier != "quick" or n % 2 == 0 or e[0] == "not"),
+                                             prefix=prefix, kind="ign_expr", contract="ignored-contigs:expression"),
+                   dict(leafcase, kind="ign_expr", expr=e), nocol=True)
+
+
 # --------------------------------------------------------------------------------------------- driver
 CHECKERS = {"to_array": check_to_array, "from_intervals": check_from_intervals, "rla_from_bedgraph": check_rla_from_bedgraph,
-            "cover": check_cover, "to_array_bits": check_to_array_bits, "big_contig": check_big_contig, "big_genome": check_big_genome}
+            "cover": check_cover, "to_array_bits": check_to_array_bits, "big_contig": check_big_contig, "big_genome": check_big_genome,
+            "ign_cover": check_ign_cover}
 
 
 def safely(col, fn, case, *args, nocol=False):
@@ -1577,8 +1822,8 @@ def safely(col, fn, case, *args, nocol=False):
 
 def run(tier="quick", seed=0):
     quick = tier == "quick"
-    # budget: the scopes G and H (added later) cost about 10 s in the quick tier
-    col = Collector(PID, tier, seed, budget_s=80 if quick else None, rule=
+    # budget: the scopes G, H and I (added later) cost about 10 s each in the quick tier
+    col = Collector(PID, tier, seed, budget_s=95 if quick else None, rule=
                     "exhaustive over: run-length arrays (every composition of n<=%d x 3 value patterns x 7 dtypes); every sorted "
                     "non-overlapping interval layout on sizes 1..%d x 8 value modes (from_intervals) and x 5 value patterns "
                     "(from_bedgraph, size given / None); bedGraph tracks on 1 chromosome (every layout), 2 chromosomes (every pair "
@@ -1596,11 +1841,18 @@ def run(tier="quick", seed=0):
                     "candidates at 0, the size and the powers of two x 4 scalar value modes (from_intervals), 2 value patterns "
                     "(from_bedgraph), any-order overlapping sets (get_boolean_mask, get_pileup); 5 genomes whose concatenation is "
                     "2**31-1 .. 8.3e9 bases (incl. hg38 sizes): mask / pileup of every set of <=%d candidate intervals, 9 bedGraph "
-                    "tracks, 12 expressions over masks, pileup and track"
+                    "tracks, 12 expressions over masks, pileup and track; 4 more genomes in which a chromosome OFFSET is at / beyond "
+                    "2**32 (4 x 1.5e9, 2**32 + 1000 + 5000, 2**32-1 + 1000 + 5000, 5 x 3e9) and one with ignored contigs. "
+                    "Genomes with ignored contigs of non-zero size (%d contig lists: ignored first / in the middle / last, 1..4 "
+                    "included; built from a chrom.sizes file, a .fai file, from_dict with the no-underscore filter, "
+                    "with_ignored_added): mask and pileup of interval multisets of <=3 intervals (with / without intervals on the "
+                    "ignored contigs) with the reductions, histograms and back-conversions of x, ~x, x==0, x<2, x+1, x*2, x>0; "
+                    "%d expressions (depth 1 of the typed grammar over tracks, masks and the pileup; 14 of depth 2) on %d leaf sets"
                     % (5 if quick else 7, 6 if quick else 8, len(leaf_sets(tier)),
                        "sampled (stride + seed) on 5 leaf sets" if quick else "exhaustive on 6 leaf sets",
                        5 if quick else 7, 3 if quick else 4, 4 if quick else 6, sum(len(x) for x in fexpr_list()),
-                       len(fexpr_leaf_sets(tier)), len(BIG_SIZES), 2 if quick else 3, 2 if quick else 3))
+                       len(fexpr_leaf_sets(tier)), len(BIG_SIZES), 2 if quick else 3, 2 if quick else 3,
+                       len(IGN_GENOMES), sum(len(x) for x in ign_exprs()), len(ign_leaf_sets(tier))))
     col.bounds = {"to_array": {"n": "0..%d" % (5 if quick else 7), "dtypes": list(DTYPE_PALETTES)},
                   "from_intervals": {"size": "1..%d" % (6 if quick else 8), "modes": list(FI_MODES)},
                   "rla_from_bedgraph": {"size": "1..%d" % (5 if quick else 7), "patterns": list(VALUE_PATTERNS), "size_arg": ["size", "None"]},
@@ -1617,13 +1869,21 @@ def run(tier="quick", seed=0):
                   "big coordinates": {"contig sizes": list(BIG_SIZES), "intervals per contig": "0..%d" % (2 if quick else 3),
                                       "genomes": {k: sum(s for _, s in v) for k, v in BIG_GENOMES.items()},
                                       "intervals per genome": "0..%d" % (2 if quick else 3), "expressions": list(BIG_EXPRS),
-                                      "not in scope": "from_intervals with an array of values (raises on every input, known finding)"}}
+                                      "not in scope": "from_intervals with an array of values (raises on every input, known finding)"},
+                  "ignored contigs": {"contig lists (file order)": {k: [list(c) for c in v] for k, v in IGN_GENOMES.items()},
+                                      "ignored": "names containing '_' (default of Genome.from_file), plus one name added by with_ignored_added",
+                                      "routes": list(IGN_ROUTES), "intervals": "0..3 on the included contigs (every pair; triples strided by 2, quick: pairs by 5, triples by 23), "
+                                      "every 3rd set with intervals on the ignored contigs", "views": {k: [v[0] for v in vs] for k, vs in IGN_VIEWS.items()},
+                                      "expr leaves": "A int track, B float track, M, K masks, P pileup of the intervals of K and M",
+                                      "big": {k: [list(c) for c in v] for k, v in BIG_CONTIGS.items()}}}
     with TmpDir() as tmp:
-        for gen in (gen_to_array, gen_from_intervals, gen_rla_from_bedgraph, gen_to_array_bits, gen_big_contig, gen_big_genome):
+        for gen in (gen_to_array, gen_from_intervals, gen_rla_from_bedgraph, gen_to_array_bits, gen_big_contig, gen_big_genome,
+                    gen_ign_cover):
             for case in gen(tier):
                 safely(col, CHECKERS[case["kind"]], case)
             if col.out_of_time():
                 return col.result()
+        run_ign_expressions(col, tier)
         for n, case in enumerate(gen_ftracks(tier)):
             safely(col, check_ftrack, case, tmp)
             if n % 100 == 0 and col.out_of_time():
@@ -1661,6 +1921,17 @@ def replay(case):
                     # operands first: an expression whose operand is wrong is reported at the operand
                     for sub in [x for x in case["expr"][1:] if x[0] not in ("leaf", "scalar")] + [case["expr"]]:
                         check_fexpr(col, env, leafcase, sub)
+        elif kind == "ign_expr":
+            leafcase = {k: v for k, v in case.items() if k not in ("kind", "expr")}
+            on_ign = any(is_ignored_name(r[0]) for k in "ABMK" for r in leafcase[k])
+            prefix = "ignored-contigs:" + ("data-on-ignored:" if on_ign else "") + "expr"
+            env = col.guarded(lambda: ExprEnv(col, leafcase), prefix + ":leaves", case)
+            if env is not None:
+                env.check_leaves(col, leafcase, prefix=prefix, kind="ign_expr")
+                if case["expr"][0] != "leaf":
+                    for sub in [x for x in case["expr"][1:] if x[0] not in ("leaf", "scalar")] + [case["expr"]]:
+                        check_expr(col, env, leafcase, sub, full=True, prefix=prefix, kind="ign_expr",
+                                   contract="ignored-contigs:expression")
         elif kind == "expr":
             leafcase = {k: v for k, v in case.items() if k not in ("kind", "expr")}
             env = col.guarded(lambda: ExprEnv(col, leafcase), "expr:leaves", case)
